@@ -57,6 +57,8 @@ package websocket
 // by the single reader that calls Parse, and by CloseAndClean under the mutex together with closed = true; the
 // reader's knowledge of it between its critical sections is kept in thread-local ghosts tied to the monitor.
 //@ ghost local Conn.gRCache : Int
+//@ ghost local Conn.gW : Int
+//@ ghost local Conn.gWP : Int
 //@ ghost local Conn.gRMsg : Int
 //@ ghost local Conn.gRType : Int
 //@ ghost local Conn.gRExp : Bool
@@ -65,7 +67,7 @@ package websocket
 //@ monghost unlock { self.gRCache = self.bytesCached; self.gRMsg = self.message; self.gRType = self.msgType; self.gRExp = self.expectingFragments; self.gRComp = self.compress }
 //@ moninv reader: !self.closed ==> self.bytesCached == self.gRCache && self.message == self.gRMsg && self.msgType == self.gRType && self.expectingFragments == self.gRExp && self.compress == self.gRComp
 //@ moninv own: !self.closed ==> WsOwn(self)                                                   // prop C11
-//@ pred WsOwn(c *Conn) := (c.bytesCached != nil ==> liveP[c.bytesCached]) && (c.message != nil ==> liveP[c.message] && c.message != c.bytesCached)
+//@ pred WsOwn(c *Conn) := (c.bytesCached != nil ==> liveP[c.bytesCached] && c.bytesCached <= top) && (c.message != nil ==> liveP[c.message] && c.message <= top && c.message != c.bytesCached)
 //@ pred WsWired(c *Conn) := c.commonFields != nil && c.Engine != nil && c.Engine.BodyAllocator != nil
 
 //@ func (*Conn).readAll
@@ -189,11 +191,11 @@ package websocket
 //@   params c w level
 //@   ensures result != nil
 //@   assigns allocates
-//@ pred SendKeeps(c *Conn) := WsWired(c) && c.Engine.MaxWebsocketFramePayloadSize == old(c.Engine.MaxWebsocketFramePayloadSize) && c.commonFields == old(c.commonFields) && c.closed == old(c.closed) && c.bytesCached == old(c.bytesCached) && c.message == old(c.message) && c.msgType == old(c.msgType) && c.expectingFragments == old(c.expectingFragments) && c.compress == old(c.compress) && holds(c.mux) == old(holds(c.mux))
+//@ pred SendKeeps(c *Conn) := WsWired(c) && c.Conn == old(c.Conn) && (forall wb *writeBuffer :: wb.pbuf == old(wb.pbuf)) && c.Engine.MaxWebsocketFramePayloadSize == old(c.Engine.MaxWebsocketFramePayloadSize) && c.commonFields == old(c.commonFields) && c.closed == old(c.closed) && c.bytesCached == old(c.bytesCached) && c.message == old(c.message) && c.msgType == old(c.msgType) && c.expectingFragments == old(c.expectingFragments) && c.compress == old(c.compress) && holds(c.mux) == old(holds(c.mux))
 //@ iface io.WriteCloser.Write
 //@   note a flate writer feeding a writeBuffer: allocates and grows buffers of its own only
 //@   ensures forall q int :: old(liveP[q]) ==> liveP[q]
-//@   ensures forall wb *writeBuffer :: wb.pbuf == old(wb.pbuf) || fresh(wb.pbuf)
+//@   ensures forall wb *writeBuffer :: wb.pbuf == old(wb.pbuf) || (fresh(wb.pbuf) && liveP[wb.pbuf])
 //@   assigns liveP, writeBuffer.pbuf, allboxes("[]byte"), allelems("byte"), allocates
 //@ func (*writeBuffer).Close
 //@   trusted
@@ -205,27 +207,51 @@ package websocket
 //@ func (*Conn).WriteMessage
 //@   props C15 C13 C14
 //@   safety index slice nil div assert panic make lock
-//@   requires WsWired(c) && !holds(c.mux) && c.Engine.MaxWebsocketFramePayloadSize > 0
+//@   requires WsWired(c) && !holds(c.mux) && c.Engine.MaxWebsocketFramePayloadSize > 0 && c.Conn != nil
+//@   note the message type is one of the six opcodes of RFC 6455 (or 0 for WriteFrame continuation): a caller's own invalid opcode is outside the property
+//@   requires optype: 0 <= messageType && messageType <= 15
 //@   ensures ctlbig: isCtl(messageType) && len(data) > 125 ==> result != nil && c.gFrames == 0       // prop C15 C13
 //@   ensures unlocked: !holds(c.mux)                                                                  // prop C14
 //@   assigns everything
-//@   at entry ghost { c.gFrames = 0 }
+//@   at entry ghost { c.gFrames = 0; c.gW = 0; c.gWP = 0 }
+//@   note the compression buffer is this call's own: new, or grown by the compressor, never one of the reader's buffers
+//@   at call:Write#1 ghost { c.gW = w; c.gWP = w.pbuf }
+//@   at call:Close#1 ghost { c.gWP = w.pbuf }
 //@   at before:writeFrame#1 assert locked: holds(c.mux)                                               // prop C14
 //@   at before:writeFrame#2 assert locked: holds(c.mux)                                               // prop C14
 //@   at call:writeFrame#1 ghost { c.gFrames = c.gFrames + 1 }
 //@   at call:writeFrame#2 ghost { c.gFrames = c.gFrames + 1 }
 //@   loop 1
-//@     invariant holds(c.mux) && WsWired(c) && c.Engine.MaxWebsocketFramePayloadSize > 0 && len(data) >= 0
+//@     invariant holds(c.mux) && WsWired(c) && c.Engine.MaxWebsocketFramePayloadSize > 0 && len(data) >= 0 && c.Conn != nil
 //@     invariant isCtl(messageType) ==> len(data) <= 125
 //@     invariant !c.closed ==> WsOwn(c)
-//@ func (*Conn).writeFrame
+//@     invariant (forall wb *writeBuffer :: wb == c.gW && wb != nil ==> wb.pbuf == c.gWP) && (c.gWP != 0 ==> liveP[c.gWP] && c.gWP != c.bytesCached && c.gWP != c.message)
+// ---- one frame on the wire (RFC 6455 5.2), as writeFrame builds it. The same header predicates are what nextFrame decodes
+// (nextFrame/post#fields, #okbody), so decode(encode(frame)) == frame is the composition of the two contracts (C12).
+//@ pred hdrLen(n int, client bool) := ite(n < 126, 2, ite(n <= 65535, 4, 10)) + ite(client, 4, 0)
+//@ pred FrameHdr(b []byte, fin bool, rsv1 bool, op int, client bool, n int) := len(b) == hdrLen(n, client) + n && b[0] == ite(fin, 128, 0) + ite(rsv1, 64, 0) + op && b[1] == ite(client, 128, 0) + ite(n < 126, n, ite(n <= 65535, 126, 127)) && (n >= 126 && n <= 65535 ==> b[2]*256 + b[3] == n) && (n > 65535 ==> (((((((b[2]*256 + b[3])*256 + b[4])*256 + b[5])*256 + b[6])*256 + b[7])*256 + b[8])*256 + b[9]) == n)
+//@ func (*Conn).writeFrame$1
 //@   trusted
-//@   havoc
-//@   requires holds(c.mux)
+//@   note the send-queue drainer (C14's subject) is not verified here
+//@   assigns everything
+//@ func (*Conn).writeFrame
+//@   props C12 C11
+//@   safety index slice nil div assert panic make
+//@   requires holds(c.mux) && WsWired(c) && c.Conn != nil && 0 <= messageType && messageType <= 15
 //@   ensures SendKeeps(c)
-//@   ensures forall q int :: old(liveP[q]) ==> liveP[q]
+//@   note the buffer that goes to the connection or into the send queue is one well-formed frame carrying exactly data
+//@   at return assert hlen: result == nil ==> len(*pbuf) == hdrLen(len(data), c.isClient) + len(data)   // prop C12
+//@   at return assert b0: result == nil ==> (*pbuf)[0] == ite(fin, 128, 0) + ite(compress, 64, 0) + ite(sendOpcode, messageType, 0)   // prop C12
+//@   at return assert b1: result == nil ==> (*pbuf)[1] == ite(c.isClient, 128, 0) + ite(len(data) < 126, len(data), ite(len(data) <= 65535, 126, 127))   // prop C12
+//@   at return assert l16: result == nil && len(data) >= 126 && len(data) <= 65535 ==> (*pbuf)[2]*256 + (*pbuf)[3] == len(data)   // prop C12
+//@   at return assert l64: result == nil && len(data) > 65535 ==> ((((((((*pbuf)[2]*256 + (*pbuf)[3])*256 + (*pbuf)[4])*256 + (*pbuf)[5])*256 + (*pbuf)[6])*256 + (*pbuf)[7])*256 + (*pbuf)[8])*256 + (*pbuf)[9]) == len(data)   // prop C12
+//@   at return assert payload: result == nil && !c.isClient ==> (forall p int {mem(*pbuf, p)} :: off(*pbuf) + hdrLen(len(data), false) <= p && p < off(*pbuf) + len(*pbuf) ==> mem(*pbuf, p) == memold(data, p - off(*pbuf) - hdrLen(len(data), false) + old(off(data))))   // prop C12
+//@   at before:Write#1 assert handed: arg_b == *pbuf   // prop C12
+//@   ensures freed: old(c.sendQueue) == nil ==> (forall q int :: q <= old(top) ==> liveP[q] == old(liveP[q]))        // prop C11
+//@   ensures nofree: forall q int :: old(liveP[q]) ==> liveP[q]                                       // prop C11
+//@   assigns everything
 //@ iface io.WriteCloser.Close
 //@   note closing a flate writer flushes into its writeBuffer
 //@   ensures forall q int :: old(liveP[q]) ==> liveP[q]
-//@   ensures forall wb *writeBuffer :: wb.pbuf == old(wb.pbuf) || fresh(wb.pbuf)
+//@   ensures forall wb *writeBuffer :: wb.pbuf == old(wb.pbuf) || (fresh(wb.pbuf) && liveP[wb.pbuf])
 //@   assigns liveP, writeBuffer.pbuf, allboxes("[]byte"), allelems("byte"), allocates
